@@ -110,6 +110,17 @@ CLAIMED = {
          'currently established differentially (oracle), the memory-safety clause by proof; API-level transparency is covered through C10.',
     technique='Coq proof (invariant over decoder loop) over hand model; translator-regenerated constants/align (tie A); differential correspondence + reference-decoder oracle (tie B)',
     design='6/C14'),
+ 'C17': dict(
+    text='Theorems over an exact-integer model of graphite2::Zones (src/Intervals.cpp: insert with its four overlap cases, remove, exclude, exclude_with_margins, weighted, '
+         'test_position): for initialise followed by ANY operation sequence the interval list stays sorted, disjoint, well-formed and inside [_pos,_posm] (and free of empty intervals '
+         'on zones of non-zero width); a weighted insert keeps exactly the same positions on offer; no operation ever adds a position; a position strictly inside an excluded range is '
+         'never offered again (zones of non-zero width); closest() answers inside an interval however the float division rounds; the unrestricted exclusion statement is REFUTED '
+         '(zero-width zone).  Tie B: the same operation sequences on the real Zones class (component harness) and the extracted model, full list (bounds, weights, open flag) compared '
+         'after every operation.  Oracle on the implementation: sortedness, bounds, excluded ranges, closest answers; collision fonts end to end under ASan/UBSan.',
+    note='partial: only the interval-set clause of C17 is proved.  The geometric clauses (accumulated offset inside the limit rectangle at each step, resolved verdict implies no octabox '
+         'overlap) are not modelled; ShiftCollider/KernCollider are exercised end to end on the Awami fonts under sanitizers only.  One known finding (zero-width zones).',
+    technique='Coq proof (sortedness/disjointness invariant over arbitrary op sequences, coverage monotonicity, exclusion permanence, refutation witness) over hand model + differential correspondence on the real class + oracle',
+    design='6/C17'),
  'C18': dict(
     text='Theorems over the model of the FeatureRef constructor and applyValToFeature/getFeatureVal: set succeeds iff v <= largest setting; every '
          'accepted Feat table (any number of features, any maxima < 2^32) gets well-formed, pairwise DISJOINT bit fields; after a successful set the '
